@@ -39,7 +39,10 @@ RULE_ADDED = (
               ' bring-up. '
               ' '
               'Round 12: the same refusal ten times in a row on one manager at three steps of e'
-              'very command - all ten answers are the same. ')
+              'very command - all ten answers are the same. '
+              ' '
+              'Round 14: advance / updateAncestor shapes whose headers the device cuts short (a'
+              'll sweeps apply to them). ')
 RULE = RULE + " " + RULE_ADDED.strip()
 ASSUMPTIONS = [
     "simulated device + fake HID transport trusted; injected status words carry no data "
